@@ -311,6 +311,21 @@ def rule_e(ctx: Ctx) -> None:
                 'key; a mapping parameter must occur through `.items()`.')
 
 
+def _edge_means_not_found(t: str, lab: str) -> bool:
+    """on the edge (test text, label) the lookup result is known not to be an element (truth table over the atoms of the test)."""
+    from .common import atom_forces, bool_atoms
+    try:
+        te = ast.parse(t, mode='eval').body
+    except SyntaxError:
+        return False
+    for a in bool_atoms(te):
+        if a == 'isinstance(xsd_element, XsdElement)' and atom_forces(te, a, True, lab != 'T'):
+            return True       # were it an element the test would go the other way
+        if a == 'xsd_element is None' and atom_forces(te, a, False, lab != 'T'):
+            return True
+    return False
+
+
 def rule_f(ctx: Ctx, rule: str = 'C20.f') -> None:
     """A selection path ending in `*` (every chunk of a lazy resource, or path='…/*') names the children of a known parent: the
     declaration that governs such a child is the one found *under that parent*; the global declaration of the same name is only a
@@ -332,8 +347,7 @@ def rule_f(ctx: Ctx, rule: str = 'C20.f') -> None:
     ctx.floor(rule, 'global-declaration fallbacks in the wildcard-step branch', len(globs), 1)
     dom = g.dominators(kinds='nTF')
     for n in globs:
-        ok = any(fd in dom[n] for fd in finds) and any('isinstance(xsd_element, XsdElement)' in t and lab == 'F' or 'xsd_element is None' in t and lab == 'T'
-                                                         for t, lab in guards(ctx, f, n))
+        ok = any(fd in dom[n] for fd in finds) and any(_edge_means_not_found(t, lab) for t, lab in guards(ctx, f, n))
         ctx.ob(rule, 'get_element: for a path ending in `*` the global declaration is consulted only after the lookup under the parent found none', f.loc(n.ast), ok,
                '' if ok else 'the global declaration of the tag is taken before (or without) `self.find(path[:-1] + tag)`: a local child declaration that shares its name '
                'with a global element of another type is validated against the global one - lazy chunks and path=".../*" disagree with the full run',
